@@ -56,11 +56,26 @@ def _json_val(depth=3):
                         max_leaves=12)
 
 
+# structurally valid JSON with arbitrary TYPES under the keys that views inspect (GraphQL, socket.io-ish envelopes), arrays of such
+# objects, and very deep nesting
+_VIEW_KEYS = ["query", "operationName", "variables", "extensions", "id", "type", "payload", "data", "errors", "mutation"]
+_typed_val = st.one_of(st.none(), st.booleans(), st.integers(-5, 10 ** 20), st.floats(allow_nan=False, allow_infinity=False), st.just([]), st.just({}),
+                       st.sampled_from(["", "query { a }", "mutation M { a }", "{", "\u001b[31m", "query Q($a: Int) { a }"]),
+                       st.lists(st.one_of(st.none(), st.integers(0, 3), st.just("x"), st.just({"query": 1})), max_size=3),
+                       st.dictionaries(st.sampled_from(_VIEW_KEYS + ["a"]), st.one_of(st.none(), st.integers(0, 3), st.just("x"), st.just([])), max_size=3))
+_typed_obj = st.dictionaries(st.sampled_from(_VIEW_KEYS), _typed_val, min_size=1, max_size=4)
+_json_typed = st.one_of(_typed_obj, st.lists(st.one_of(_typed_obj, _typed_val), max_size=3)).map(lambda v: json.dumps(v).encode())
+_json_deep = st.tuples(st.sampled_from([400, 900, 1100, 3000, 20000, 120000]), st.sampled_from(["list", "dict", "query", "variables"])).map(
+    lambda t: {"list": b"[" * t[0] + b"]" * t[0],
+               "dict": b'{"a":' * t[0] + b"1" + b"}" * t[0],
+               "query": b'{"query":' * t[0] + b'"q"' + b"}" * t[0],
+               "variables": b'{"query": "query { a }", "variables": ' + b"[" * t[0] + b"]" * t[0] + b"}"}[t[1]])
 _json = st.one_of(
     _json_val().map(lambda v: json.dumps(v).encode()),
     _json_val().map(lambda v: json.dumps(v, ensure_ascii=False).encode("utf-8", "replace")),
     st.integers(1, 400).map(lambda n: b"[" * n + b"]" * n),
     st.just(b'{"a": 1e999999, "b": -0, "c": 123456789012345678901234567890}'),
+    _json_typed, _json_deep,
 )
 _xml = st.lists(st.one_of(st.sampled_from([b"<a>", b"</a>", b"<b x='1'>", b"</b>", b"<!-- c -->", b"<![CDATA[x]]>", b"<?xml version='1.0'?>",
                                            b"<!DOCTYPE html>", b"<br/>", b"<script>var a=1;</script>", b"<a b=\"\x1b[31m\">", b"&amp;", b"&#27;", b"&#x9b;", b"<"]),
@@ -70,6 +85,7 @@ _js = st.lists(st.one_of(st.sampled_from([b"function f(){", b"}", b"var a='\x1b[
 _graphql = st.one_of(
     st.tuples(_str, _json_val()).map(lambda t: json.dumps({"query": "query Q { a(b: \"%s\") { c } }" % t[0].encode("utf-8", "replace").decode(), "variables": t[1]}).encode()),
     _str.map(lambda s: json.dumps([{"query": s.encode("utf-8", "replace").decode()}]).encode()),
+    _json_typed, _json_typed, _json_deep,
 )
 
 
@@ -291,7 +307,7 @@ _mut = st.lists(st.one_of(
 
 @st.composite
 def _case(draw):
-    fam = draw(st.sampled_from(sorted(FAMILIES) + ["dns"] * 5 + ["wbxml"] * 2))
+    fam = draw(st.sampled_from(sorted(FAMILIES) + ["dns"] * 5 + ["wbxml"] * 2 + ["graphql"] * 2 + ["json"]))
     data = draw(FAMILIES[fam])
     if draw(st.integers(0, 3)) == 0:
         for op in draw(_mut):
